@@ -47,6 +47,10 @@ def replay_concrete(pg, max1, max2, size, npts=None):
     fits = brute(max1, max2, size)
     if kind == 'ok':
         n1, n2 = r
+        import numbers
+        if not all(isinstance(v, numbers.Integral) and not isinstance(v, bool) for v in (n1, n2)):
+            return kind, r, 'returned grid %r has an extent that is not an integer (%s, %s): it cannot be a process count (Create_cart, range bounds, block starts)' % (
+                r, type(n1).__name__, type(n2).__name__)
         if n1 * n2 != size or not (1 <= n1 <= max1) or not (1 <= n2 <= max2):
             return kind, r, 'returned grid %r is not a valid factorisation of %d within maxima (%d,%d)' % (r, size, max1, max2)
         return kind, r, None
@@ -140,6 +144,15 @@ def work(item):
         reach += 1
         if kind == 'ok':
             n1, n2 = val
+            if not all(isinstance(v, (int, SInt)) and not isinstance(v, bool) for v in (n1, n2)):
+                # an extent of another type (true division gives a real): decided on the real code at a point of this path
+                res['obligations'] += 1
+                r, vals = concrete_witness([])
+                if vals is not None:
+                    confirm(vals, 'returned extents of types (%s, %s)' % (type(n1).__name__, type(n2).__name__))
+                else:
+                    res['inconclusive'].append('non-integer return type without model (mpi_size=%d)' % size)
+                continue
             t1, t2 = symx.zt(n1), symx.zt(n2)
             bad = z3.Or(t1 * t2 != size, t1 < 1, t1 > e1, t2 < 1, t2 > e2)
             res['obligations'] += 1
